@@ -1,6 +1,6 @@
 (* KvProofs.v — C09: the per-element key-value lists (DbKeyValues) behave as ordered maps.
    Part 1: the store as an array of lists, insert_or_replace / remove_value / remove on one list. *)
-From Agdb Require Import Bytes DbValue Graph DbModel DbValueProofs.
+From Agdb Require Import Bytes DbValue Graph DbModel DbValueEqProofs.
 From Coq Require Import ZifyBool ZifyNat ZifyN.
 Open Scope Z_scope.
 
